@@ -288,6 +288,11 @@ func (tr *fnTrans) val(v ssa.Value) Term {
 	case *ssa.Function:
 		name := "fn_" + sanitize(fnKey(v))
 		t := T(name, SFn)
+		if tr.v.genFn[name] {
+			tr.uses["gentables"] = true
+			tr.vals[v] = t
+			return t
+		}
 		if _, ok := tr.vals[v]; !ok {
 			tr.decl(fmt.Sprintf("(declare-const %s Fn)", name))
 			tr.hyp(fmt.Sprintf("(not (= %s Fn_nil))", name))
@@ -512,26 +517,7 @@ func (tr *fnTrans) run() {
 	for _, u := range c.Uses {
 		tr.uses[u] = true
 	}
-	// heap maps named by the prelude modules in use (entry versions referenced as NAME!0)
-	if mods, err := tr.v.prelude.closure(append([]string{"core"}, c.Uses...)); err == nil {
-		for _, mn := range mods {
-			for _, w := range strings.FieldsFunc(tr.v.prelude.Mods[mn].Text, func(r rune) bool { return r == ' ' || r == '(' || r == ')' || r == '\n' || r == '\t' }) {
-				if (strings.HasPrefix(w, "A_") || strings.HasPrefix(w, "H_")) && strings.HasSuffix(w, "!0") {
-					name := strings.TrimSuffix(w, "!0")
-					es, err := tr.sortByName(name[2:])
-					if err == nil {
-						// declared by the prelude itself; register without declaring
-						if _, ok := tr.maps[name]; !ok {
-							tr.maps[name] = heapInfo{es, name[0] == 'A'}
-							tr.mapOrder = append(tr.mapOrder, name)
-						}
-					}
-				}
-			}
-		}
-	} else {
-		tr.errorf("%v", err)
-	}
+	tr.preludeHeaps(c.Uses)
 	for _, n := range tr.preMaps {
 		tr.touchHeap(n, tr.preInfo[n].elem, tr.preInfo[n].isArr)
 	}
@@ -728,6 +714,34 @@ func (tr *fnTrans) frameFormula(name string, h0, h1, allocBefore string, targets
 		}
 	}
 	return and(parts...)
+}
+
+// preludeHeaps registers the heap maps that the prelude modules in use mention (as NAME!0 or AH_/CH_ sorts)
+func (tr *fnTrans) preludeHeaps(uses []string) {
+	mods, err := tr.v.prelude.closure(append([]string{"core"}, uses...))
+	if err != nil {
+		tr.errorf("%v", err)
+		return
+	}
+	for _, mn := range mods {
+		for _, w := range strings.FieldsFunc(tr.v.prelude.Mods[mn].Text, func(r rune) bool { return r == ' ' || r == '(' || r == ')' || r == '\n' || r == '\t' }) {
+			name := ""
+			switch {
+			case (strings.HasPrefix(w, "A_") || strings.HasPrefix(w, "H_")) && strings.HasSuffix(w, "!0"):
+				name = strings.TrimSuffix(w, "!0")
+			case strings.HasPrefix(w, "AH_"):
+				name = "A_" + w[3:]
+			case strings.HasPrefix(w, "CH_"):
+				name = "H_" + w[3:]
+			}
+			if name == "" {
+				continue
+			}
+			if es, err := tr.sortByName(name[2:]); err == nil {
+				tr.touchHeap(name, es, name[0] == 'A')
+			}
+		}
+	}
 }
 
 // touchedByMods: cells of map `name` that a step framed by (allocBefore, targets) may change
@@ -1011,6 +1025,11 @@ func (tr *fnTrans) loopEnv(li *loopInfo, phiVal func(*ssa.Phi) Term, heap map[st
 				}
 			case *ssa.Phi:
 				name, val = in.Comment, in
+			case *ssa.Alloc:
+				// address-taken local: its cell is visible to invariants as addrof_<name>
+				if in.Comment != "" && in.Comment != "varargs" && in.Comment != "makeslice" && in.Comment != "complit" {
+					name, val = "addrof_"+in.Comment, in
+				}
 			}
 			if name == "" || val == nil {
 				continue
@@ -1027,6 +1046,9 @@ func (tr *fnTrans) loopEnv(li *loopInfo, phiVal func(*ssa.Phi) Term, heap map[st
 		}
 	}
 	for n, c := range best {
+		if n == "rangeindex" {
+			n = "#outer" // completed iterations - 1 of the nearest enclosing range loop
+		}
 		e.vars[n] = tr.val(c.v)
 	}
 	for _, in := range h.Instrs {
